@@ -33,6 +33,7 @@
 #include <string.h>
 #include <unistd.h>
 #include <signal.h>
+#include <fcntl.h>
 
 /* ------------------------------------------------------------------ PMPI shim */
 static int rec_on = 0;
@@ -522,33 +523,54 @@ static void run_case(char *line, const char *outdir, int seq)
     if (ncid >= 0) ncmpi_inq_dimlen(ncid, dt, &nr);
     fprintf(out, "R %s %d ret=%d tr=%s nr=%lld\n", cur_id, rank, ret, toklen ? tokbuf : "-", (long long)nr); fflush(out);
 
-    /* others_stored: every rank reads back the whole of rvar and fvar collectively and compares with
-       the image implied by the inputs of the ranks whose request was valid */
+    /* others_stored: every rank reads back the whole of rvar and fvar collectively and compares with the image implied
+       by the inputs of the ranks whose request was valid -- first in the same session, then (what a reader of the
+       file sees) after close + a fresh open, together with the raw numrecs field of the header */
     if (ncid >= 0) {
-        char msg[128] = "ok";
-        int flags = 0;
+        char msg[160] = "ok", hmsg[160] = "";
+        int flags = 0, pass;
+        MPI_Offset nr_session = 0;
         ncmpi_inq(ncid, NULL, NULL, NULL, NULL);
         /* leave independent mode if the case left us there */
         ncmpi_end_indep_data(ncid);
-        ncmpi_inq_dimlen(ncid, dt, &nr);
-        if (nr > 0 && nr <= MAXREC) {
-            MPI_Offset st[2] = {0, 0}, ct[2] = {nr, NX};
-            int e = ncmpi_get_vara_int_all(ncid, vr, st, ct, rbuf);
-            if (e != NC_NOERR) snprintf(msg, sizeof msg, "bad:get-rvar-%d", e);
-            else for (i = 0; i < nr && !flags; i++) for (j = 0; j < NX; j++)
-                if (have_r[i][j] && rbuf[i * NX + j] != expect_r[i][j]) { snprintf(msg, sizeof msg, "bad:rvar[%d][%d]=%d,expected-%d", i, j, rbuf[i * NX + j], expect_r[i][j]); flags = 1; break; }
+        for (pass = 0; pass < 2 && !flags; pass++) {
+            const char *tag = pass ? "reopen:" : "";
+            if (pass) {
+                long long hdr = -1;
+                phase = "close";
+                ncmpi_close(ncid); ncid = -1;
+                if (rank == 0) {            /* CDF-1: numrecs = 4 bytes big-endian at offset 4 */
+                    unsigned char hb[4]; int fd = open(path, O_RDONLY);
+                    if (fd >= 0) { if (pread(fd, hb, 4, 4) == 4) hdr = ((long long)hb[0] << 24) | (hb[1] << 16) | (hb[2] << 8) | hb[3]; close(fd); }
+                    /* only rank 0 sees this: it keeps taking part in the collective reads below and reports at the end */
+                    if (hdr != (long long)nr_session) snprintf(hmsg, sizeof hmsg, "bad:header-numrecs=%lld-but-ranks-reported-%lld", hdr, (long long)nr_session);
+                }
+                phase = "reopen";
+                if (ncmpi_open(ucomm, path, NC_NOWRITE, MPI_INFO_NULL, &ncid) != NC_NOERR) { snprintf(msg, sizeof msg, "bad:reopen-failed"); flags = 1; ncid = -1; break; }
+            }
+            ncmpi_inq_dimlen(ncid, dt, &nr);
+            if (!pass) nr_session = nr;
+            else if (nr != nr_session) { snprintf(msg, sizeof msg, "bad:reopen:numrecs=%lld-but-%lld-before-close", (long long)nr, (long long)nr_session); flags = 1; break; }
+            if (nr > 0 && nr <= MAXREC) {
+                MPI_Offset st[2] = {0, 0}, ct[2] = {nr, NX};
+                int e = ncmpi_get_vara_int_all(ncid, vr, st, ct, rbuf);
+                if (e != NC_NOERR) snprintf(msg, sizeof msg, "bad:%sget-rvar-%d", tag, e);
+                else for (i = 0; i < nr && !flags; i++) for (j = 0; j < NX; j++)
+                    if (have_r[i][j] && rbuf[i * NX + j] != expect_r[i][j]) { snprintf(msg, sizeof msg, "bad:%srvar[%d][%d]=%d,expected-%d", tag, i, j, rbuf[i * NX + j], expect_r[i][j]); flags = 1; break; }
+            }
+            for (i = 0; i < MAXREC && !flags; i++) if (have_r[i][0] && i >= nr) { snprintf(msg, sizeof msg, "bad:%srecord-%d-written-but-numrecs=%lld", tag, i, (long long)nr); flags = 1; }
+            if (!flags) {
+                MPI_Offset st[2] = {0, 0}, ct[2] = {NY, NX};
+                int e = ncmpi_get_vara_int_all(ncid, vf, st, ct, rbuf);
+                if (e != NC_NOERR) snprintf(msg, sizeof msg, "bad:%sget-fvar-%d", tag, e);
+                else for (i = 0; i < NY && !flags; i++) for (j = 0; j < NX; j++)
+                    if (rbuf[i * NX + j] != expect_f[i][j]) { snprintf(msg, sizeof msg, "bad:%sfvar[%d][%d]=%d,expected-%d", tag, i, j, rbuf[i * NX + j], expect_f[i][j]); flags = 1; break; }
+            }
         }
-        for (i = 0; i < MAXREC && !flags; i++) if (have_r[i][0] && i >= nr) { snprintf(msg, sizeof msg, "bad:record-%d-written-but-numrecs=%lld", i, (long long)nr); flags = 1; }
-        if (!flags) {
-            MPI_Offset st[2] = {0, 0}, ct[2] = {NY, NX};
-            int e = ncmpi_get_vara_int_all(ncid, vf, st, ct, rbuf);
-            if (e != NC_NOERR) snprintf(msg, sizeof msg, "bad:get-fvar-%d", e);
-            else for (i = 0; i < NY && !flags; i++) for (j = 0; j < NX; j++)
-                if (rbuf[i * NX + j] != expect_f[i][j]) { snprintf(msg, sizeof msg, "bad:fvar[%d][%d]=%d,expected-%d", i, j, rbuf[i * NX + j], expect_f[i][j]); flags = 1; break; }
-        }
+        if (hmsg[0] && !strcmp(msg, "ok")) strcpy(msg, hmsg);
         fprintf(out, "D %s %d data=%s\n", cur_id, rank, msg); fflush(out);
         phase = "close";
-        ncmpi_close(ncid);
+        if (ncid >= 0) ncmpi_close(ncid);
     }
     MPI_Info_free(&info);
     alarm(0);
